@@ -33,7 +33,7 @@ type expect struct {
 
 func main() {
 	run := verdict.Start("C06", "exploration",
-		"rounds of N concurrent clients with pairwise different ClientHellos (utls specs with a unique extension id) and pairwise different HTTP/2 preambles (unique SETTINGS value and WINDOW_UPDATE), half h2 (multiplexed bursts) and half HTTP/1.1 (keep-alive), from 127.0.0.1-8, connecting, idling and disconnecting at PRNG-chosen points with chopped handshake delivery; every backend record (tag, JA3, JA4, HTTP2) must carry the fingerprints of the connection the tag's client used; distinct by (round, client, request)")
+		"rounds of N concurrent clients with pairwise different ClientHellos (utls specs with a unique extension id) and pairwise different HTTP/2 preambles (unique SETTINGS value and WINDOW_UPDATE), half h2 (multiplexed bursts) and half HTTP/1.1 (keep-alive), from 127.0.0.1-8, connecting, idling and disconnecting at PRNG-chosen points with chopped handshake delivery; every backend record (tag, JA3, JA4, HTTP2) must carry the fingerprints of the connection the tag's client used; plus a library-level rig in which a handler re-reads its connection's data after its client dropped the connection and other clients were served; distinct by (round, client, request)")
 	be := rig.NewBackend(nil)
 	defer be.Close()
 	px, err := rig.StartProxy(be.URL, rig.ProxyOpts{ListenAddr: "127.0.0.1:0"})
@@ -116,6 +116,8 @@ func main() {
 		}
 		run.Add("rounds", 1)
 	}
+	lateReads(run)
+	run.Require("late_reads_judged", 20)
 	run.Require("requests_judged_h2", 300)
 	run.Require("requests_judged_http/1.1", 300)
 	run.Assume("requests whose connection was cut by the client before the response are not judged; the expected values come from the bytes each client wrote (internal/hello references) and from its own frame history (internal/ref Akamai reference)")
